@@ -1289,6 +1289,32 @@ static void layout_case(uint64_t idx, void *arg)
                                         if (ml == 0) break;
                                 }
                         }
+                        /* legacy vbi_raw_decoder_resize(): one field grows or shrinks by a line, the next image has exactly the new size */
+                        if (got & p->id) {
+                                static const int dd[4][2] = { { 0, -1 }, { 0, 1 }, { -1, 0 }, { 1, 0 } };
+                                for (int d = 0; d < 4; d++) {
+                                        int nc[2] = { c0 + dd[d][0], c1 + dd[d][1] };
+                                        if (nc[0] < 0 || nc[1] < 0 || nc[0] > 3 || nc[1] > 3 || (!nc[0] && !nc[1])) continue;
+                                        int st[2], st0[2] = { rd.start[0], rd.start[1] }; unsigned ct[2] = { nc[0], nc[1] }, ct0[2] = { c0, c1 };
+                                        for (int f = 0; f < 2; f++) {
+                                                st[f] = (!known || !nc[f]) ? 0 : p->first[f] ? (int) p->first[f] : dflt[f525][f];
+                                                if (known && nc[f] && p->first[f] && st[f] + nc[f] - 1 > (int) p->last[f] + 2) st[f] = p->last[f] - nc[f] + 1;
+                                        }
+                                        mc_case("raw decoder after vbi_raw_decoder_resize(): decode touches memory outside the new (count[0] + count[1]) x bytes_per_line image",
+                                                "%s rate=%u spl=%u fmt=%s count=%d,%d -> %d,%d start=%d,%d -> %d,%d interlaced=%d synchronous=%d", svc_short(p), j->rate, spl, fi->name,
+                                                c0, c1, nc[0], nc[1], st0[0], st0[1], st[0], st[1], il, sync);
+                                        vbi_raw_decoder_resize(&rd, st, ct);
+                                        int nl = nc[0] + nc[1]; size_t isz2 = bpl * nl;
+                                        for (int ln = 0; ln < nl; ln++) { fill_y(YL, spl, FILL_00); place(YL, spl, &tp, 8); y_to_fmt(fi, YL, spl, IMG + ln * bpl); }
+                                        uint8_t *x = mc_exact(IMG, isz2); vbi_sliced *o = mc_exact(NULL, (size_t) nl * sizeof(vbi_sliced));
+                                        int n = vbi_raw_decode(&rd, x, o);
+                                        mc_count("evaluations", 1); mc_count("layout_resizes", 1);
+                                        if (n > nl) mc_violation("vbi_raw_decode returns more records than count[0] + count[1] after a resize", "%s count=%d,%d -> %d,%d returned %d", svc_short(p), c0, c1, nc[0], nc[1], n);
+                                        free(o); free(x);
+                                        vbi_raw_decoder_resize(&rd, st0, ct0);
+                                        if (!(vbi3_raw_decoder_services((vbi3_raw_decoder *) rd.pattern) & p->id)) vbi_raw_decoder_add_services(&rd, p->id, 0);   /* an invalid intermediate layout drops the services */
+                                }
+                        }
                         mc_count("layouts_admitted", 1);
                 } else mc_count("layouts_refused", 1);
                 if (rd3) vbi3_raw_decoder_delete(rd3);
